@@ -64,7 +64,16 @@ Inductive cbkind :=
 | CbUnsub (target : Z)          (* fut.on_computed.unsubscribe(<subscriber target>): itself, an
                                    earlier or a later one; ValueError if it is not registered     *)
 | CbSub (id : Z) (k : cbkind)   (* fut.on_computed.subscribe(<new subscriber id with behaviour k>) *)
-| CbSeq (a b : cbkind).         (* a, then b unless a raised                                      *)
+| CbSeq (a b : cbkind)          (* a, then b unless a raised                                      *)
+| CbSet (target : Z) (o : outcome) (guarded : bool).
+                                (* completes ANOTHER future of the case from inside the notification:
+                                   <future target>.set_value/set_error(o) - guarded = only `if not
+                                   target.is_computed()` (the alias / fallback pattern), unguarded = a
+                                   computed target makes the callback raise FutureIsAlreadyComputed.
+                                   Families with several futures (BatchFut.v: 0 = the batch, i = item
+                                   i) interpret the target; in the single-future families the only
+                                   future there is is the one being notified - already computed -, so
+                                   the guarded form does nothing and the unguarded form raises          *)
 
 Definition sub := (Z * cbkind)%type.
 
@@ -84,6 +93,7 @@ Fixpoint run_cb (k : cbkind) (live : list sub) : list sub * bool :=
   | CbUnsub t => match remove_first t live with Some l => (l, false) | None => (live, true) end
   | CbSub id k' => (live ++ [(id, k')], false)
   | CbSeq a b => let '(l1, r) := run_cb a live in if r then (l1, true) else run_cb b l1
+  | CbSet _ _ g => (live, negb g)
   end.
 
 (* EventHook.safe_trigger: the loop runs over [snap] - the copy of the handler list made when the
